@@ -109,7 +109,9 @@ BUILTINS = {'sign': sign, 'abs': abs, 'len': len, 'min': min, 'max': max, 'int':
             'itertools.chain.from_iterable': lambda xs: [y for x in xs for y in x], 'chain.from_iterable': lambda xs: [y for x in xs for y in x],
             'itertools.chain': lambda *xs: [y for x in xs for y in x], 'chain': lambda *xs: [y for x in xs for y in x],
             'itertools.product': lambda *xs: list(__import__('itertools').product(*xs)), 'itertools.count': lambda start=0: list(range(start, start + 60)),
-            'iter': iter, 'next': next, 'getattr': getattr, 'hasattr': hasattr, 'defaultdict': __import__('collections').defaultdict, 'collections.defaultdict': __import__('collections').defaultdict,
+            're.compile': __import__('re').compile, 're.fullmatch': __import__('re').fullmatch, 're.match': __import__('re').match, 're.search': __import__('re').search,
+            're.findall': __import__('re').findall, 're.sub': __import__('re').sub, 're.split': __import__('re').split, 're.escape': __import__('re').escape,
+            'iter': iter, 'next': next, 'slice': slice, 'divmod': divmod, 'round': round, 'repr': repr, 'getattr': getattr, 'hasattr': hasattr, 'defaultdict': __import__('collections').defaultdict, 'collections.defaultdict': __import__('collections').defaultdict,
             'string.ascii_letters': __import__('string').ascii_letters, 'ascii_letters': __import__('string').ascii_letters,
             'np.all': _np_all, 'numpy.all': _np_all, 'np.any': _np_any, 'numpy.any': _np_any, 'np.isfinite': _np_isfinite, 'numpy.isfinite': _np_isfinite}
 
@@ -259,6 +261,8 @@ def ev(node, env):
             recv_m = ev(node.func.value, env)
         except Unsupported:
             recv_m = None
+        if isinstance(recv_m, (__import__('re').Pattern, __import__('re').Match)) and node.func.attr in ('fullmatch', 'match', 'search', 'findall', 'sub', 'split', 'group', 'groups', 'groupdict', 'start', 'end', 'span'):
+            return getattr(recv_m, node.func.attr)(*[ev(a, env) for a in node.args])
         if isinstance(recv_m, Bools) and node.func.attr in ('all', 'any') and not node.args:
             return getattr(recv_m, node.func.attr)()
         if isinstance(recv_m, Model):
@@ -452,6 +456,9 @@ def run_stmts(stmts, env):
                     run_stmts(_st.body, local)
                 except Returned as r:
                     if r.value is not None and isinstance(r.value, tuple) and len(r.value) == 2 and r.value[0] == 'raise':
+                        if is_gen and local.get('__yield__'):
+                            # a generator is interpreted eagerly: what it yielded before it raised is what a consumer that takes the first items (`next(..)`) sees
+                            return list(local['__yield__'])
                         raise Raised(r.value[1])
                     return list(local.get('__yield__', [])) if is_gen else r.value
                 return list(local.get('__yield__', [])) if is_gen else None
@@ -476,6 +483,8 @@ def run_stmts(stmts, env):
                     break
             if not broke:
                 run_stmts(st.orelse, env)
+        elif isinstance(st, ast.Expr) and isinstance(st.value, ast.Call):
+            ev(st.value, env)        # a call for its effect (a recorder put into the environment, a method of a stand-in object)
         elif isinstance(st, ast.Break):
             raise Broke()
         elif isinstance(st, ast.Continue):
